@@ -364,6 +364,12 @@ func (m *mon) attacks(tp template, url string) []attack {
 					Metadata: valsettypes.MsgMetadata{Creator: m.puppet.Bech, Signers: []string{X.Bech}}}
 				out = append(out, attack{name: "foreign-signer-behind-delegated-message-by-" + who, signer: X, msg: clone(c, a1), pre: []sdk.Msg{decoy}})
 			}
+			// ... and behind a message A sends in its OWN name (creator A, signer A)
+			if tp.kind != "gov" {
+				own := &palomatypes.MsgAddStatusUpdate{Status: "own", Level: palomatypes.MsgAddStatusUpdate_LEVEL_INFO,
+					Metadata: valsettypes.MsgMetadata{Creator: X.Bech, Signers: []string{X.Bech}}}
+				out = append(out, attack{name: "foreign-signer-behind-own-message-by-" + who, signer: X, msg: clone(c, a1), pre: []sdk.Msg{own}})
+			}
 		}
 		// the forged message signed by SEVERAL accounts of the attacker (3 and 5 signers, none of them B, in both
 		// orders): signer lists longer than one take other paths through decoding and validation
